@@ -2,10 +2,11 @@
    ExtrOcamlBasic only: bool/option/list/prod/unit/sumbool map to OCaml's; Z,
    positive, nat, Q stay the extracted Coq datatypes.  No Extract Constant. *)
 From Coq Require Import Extraction ExtrOcamlBasic ZArith List.
-Require Import CV.RowLeg CV.RowLegCert CV.RowLegChecked CV.Orient CV.FreeSpace CV.Hpwl.
+Require Import CV.RowLeg CV.RowLegCert CV.RowLegChecked CV.Orient CV.FreeSpace CV.Hpwl CV.Circuit CV.Legalizer.
 Extraction Language OCaml.
 Extraction "model.ml"
   RowLeg.run RowLegChecked.checked_run RowLegCert.cert_ok RowLegChecked.mk_cells
   FreeSpace.freespace_rows FreeSpace.compute_rows_circuit
   Hpwl.pin_x_offset Hpwl.pin_y_offset Hpwl.placed_width Hpwl.placed_height Hpwl.def_transform Hpwl.hpwl
-  Hpwl.circuit_topology Hpwl.incr_trace Hpwl.cell_net_ids.
+  Hpwl.circuit_topology Hpwl.incr_trace Hpwl.cell_net_ids
+  Circuit.legalb Circuit.orient_okb Circuit.trivially_feasible Circuit.free_rows Legalizer.legalize_circuit Legalizer.circuit_after.
